@@ -36,7 +36,7 @@ def main():
     pid, k, sid, needs = sys.argv[1:5]
     dflags = sys.argv[5] if len(sys.argv) > 5 else ''   # e.g. --release for demonstrations that need an optimised build
     wt = '/tmp/seed/%s' % pid
-    od = '/tmp/seed/out/%s' % pid
+    od = os.path.join(os.environ.get('SEED_OUT', '/tmp/seed/out'), pid)
     diff = os.path.join(od, 'change%s.diff' % k)
     demo = os.path.join(od, 'demo%s.rs' % k)
     ran = []
